@@ -9,6 +9,18 @@ E2 = "explicit-state breadth-first search over operation sequences on the real o
 E1 = "stateless model checking of the real code under a controlled cooperative scheduler: every interleaving of the atomic/lock/channel steps of a small multi-goroutine harness (iterative preemption bounding, happens-before state matching), linearizability oracle + vector-clock race detection on every execution"
 
 claimed = {
+ "C05": dict(engine="E3 enum", technique=E3, design="6 C05",
+   text="Bounded-exhaustive enumeration with a brute-force oracle written with package strings: every pattern set (1..3 patterns of length <= 3 over {a,b}, incl. the empty pattern; sets of 4; sets over {a,b,c}; 'cover' shapes; queue-growth family) x 4 insertion histories (build once, insert-after-build + rebuild, duplicates) x every text up to length 10 (12 thorough) and every key up to length 3; the same over the width alphabet {a, e-acute, CJK, emoji, U+FFFD}; and the width pattern sets against every byte string of length <= 4 (5) over {a,C3,A9,EF,BF,BD,FF} that is not valid UTF-8. Match <=> some non-empty pattern occurs; FindAll = one entry per (pattern, position); PrefixSearch exact; FuzzySearch sound; byte-exactness and no panic on invalid text.",
+   note="Trusted: strings.Index-based oracle. Outside: patterns longer than 4 symbols, more than 4 patterns, completeness of FindAll on invalid text (not demanded)."),
+ "C06": dict(engine="E3 enum", technique=E3, design="6 C06",
+   text="Same enumerated space as C05 (structure alphabets {a,b}, {a,b,c}, cover shapes where a long occurrence ending late starts before several earlier disjoint ones, width alphabet, invalid byte texts). Oracle from brute-force occurrences -> maximal covered regions: ReplaceWithMask must equal the text with exactly the covered runes masked (two mask runes), Replace must parse as uncovered segments with 1..#occurrences replacement copies per region and equal the uncovered bytes for the empty replacement; no panic on any text.",
+   note="Trusted: brute-force region computation. Outside: longer patterns/texts; exact output on invalid UTF-8 text (only no-panic is demanded)."),
+ "C08": dict(engine="E3 enum", technique=E3, design="6 C08",
+   text="Bounded-exhaustive differential enumeration against crypto/aes + crypto/cipher: CBC and GCM for key sizes 16/24/32 (and invalid 0,15,17,33) x plaintext lengths 0..48 x 3 byte patterns x dst layouts fresh / in-place as documented / disjoint halves, nonce sizes 12/1/16, AAD lengths 0/1/17; EVERY single-bit flip (and +-1 byte length change) of ciphertext, tag, nonce and AAD for lengths 0..17 (0..48 thorough) must fail; PKCS#7 un-padding for every block size 1..255 x 1..3 blocks x every last-byte value, every corrupted pad-tail position and every non-multiple length, standalone (58 M cases) and through AESCBCDecrypt with crafted blocks; guard bytes around dst.",
+   note="Trusted: Go's crypto/aes, crypto/cipher as oracle. Outside: byte values beyond three patterns (the code is value-oblivious except for pad bytes, which are enumerated fully); CBC has no tamper claim."),
+ "C09": dict(engine="E3 enum", technique=E3 + " with the io.Reader/io.Writer and crypto/rand.Reader answers scripted (fault sequences enumerated exhaustively)", design="6 C09",
+   text="Bounded-exhaustive enumeration: Encrypt/Decrypt/SaltBySecret* for plaintext lengths 0..40 x 3 patterns x 3 secrets (string and []byte) x 3 enumerated salts (crypto/rand.Reader scripted, read failures injected) against an independent EVP_BytesToKey(MD5,1)+CBC implementation and an independent envelope parser; GCM: every bit of the binary envelope flipped, changed secret / AAD must fail; garbage: every truncation and every substitution from {A,=,!,g,0}; streams: EVERY composition of the stream into read chunks (total <= 20 bytes quick, <= 24 = 2^23 compositions thorough) x EOF with the last data or separately x empty reads, on the plaintext reader of EncryptStreamTo and the ciphertext reader of DecryptStreamTo; every Write / Read call failing in turn; longer streams with <= 2 (3) deviations.",
+   note="Trusted: independent OpenSSL-format reference in the harness (cross-checked against the openssl binary on the thorough tier when present, informational). Outside: plaintexts longer than 40 bytes for the block paths, streams longer than 3 blocks."),
  "C12": dict(engine="E1 sched", technique=E1, design="6 C12",
    text="Stateless model checking of the real mapz/safekv.go + iter.go (sync.RWMutex redirected to a scheduler-owned shim, every access to the entries field and to the map content probed): ALL schedules, without preemption bound, of every unordered pair of 18 method instances (Get, Has, Contains, Len, Set x2, SetNx, SetX, Delete x2, Keys, Values, Range, All, GetWithMap, GetWithLock, Clear, Map) as two goroutines from start states {} and {a:1}, plus eight 3-goroutine mixes; callbacks pause while the lock is held. Every execution: vector-clock data-race detection (a race is reported from the clocks in whichever schedule is explored, both hiding and exposing orders are explored), linearizability to a plain map in which every call incl. Keys/Values/Range/All/GetWithMap/Map is one atomic step.",
    note="Trusted: shim RWMutex (no writer preference: superset of Go's behaviours), instrumenter. Outside: >3 goroutines, keys beyond {a,b}; Go-runtime-internal map state is seen only through the probes."),
